@@ -33,8 +33,41 @@ func TestMain(m *testing.M) {
 
 var opts = gopacket.SerializeOptions{FixLengths: true, ComputeChecksums: true}
 
+var dirtyFill = gopacket.Payload(bytes.Repeat([]byte{0xFF}, 700))
+
+// ser serialises into a fresh buffer and into a buffer that carried another
+// packet before (a SerializeBuffer hands out its old bytes again after Clear:
+// the library's connections reuse one buffer for every packet); the bytes must
+// not depend on which.
 func ser(t *rapid.T, ls ...gopacket.SerializableLayer) []byte {
 	buf := gopacket.NewSerializeBuffer()
+	if err := gopacket.SerializeLayers(buf, opts, ls...); err != nil {
+		t.Fatalf("serialise: %v", err)
+	}
+	out := append([]byte(nil), buf.Bytes()...)
+	used := gopacket.NewSerializeBuffer()
+	if err := gopacket.SerializeLayers(used, opts, dirtyFill); err != nil {
+		t.Fatalf("harness: %v", err)
+	}
+	if err := gopacket.SerializeLayers(used, opts, ls...); err != nil {
+		t.Fatalf("serialise into a used buffer: %v", err)
+	}
+	if !bytes.Equal(out, used.Bytes()) {
+		t.Fatalf("the serialisation depends on what the buffer held before:\nfresh buffer % x\nused buffer  % x", out, used.Bytes())
+	}
+	return out
+}
+
+// serOnce serialises once, into a fresh or a used buffer (for layers whose
+// bytes legitimately differ between two serialisations: the AES layer draws a
+// fresh IV each time).
+func serOnce(t *rapid.T, usedBuffer bool, ls ...gopacket.SerializableLayer) []byte {
+	buf := gopacket.NewSerializeBuffer()
+	if usedBuffer {
+		if err := gopacket.SerializeLayers(buf, opts, dirtyFill); err != nil {
+			t.Fatalf("harness: %v", err)
+		}
+	}
 	if err := gopacket.SerializeLayers(buf, opts, ls...); err != nil {
 		t.Fatalf("serialise: %v", err)
 	}
@@ -291,7 +324,8 @@ func TestAES(t *testing.T) {
 		if err != nil {
 			t.Fatalf("NewAES128CBC: %v", err)
 		}
-		w := ser(t, a, gopacket.Payload(p))
+		usedBuffer := rapid.Bool().Draw(t, "usedBuffer")
+		w := serOnce(t, usedBuffer, a, gopacket.Payload(p))
 		ev.Eval()
 		// the reference must accept the encoding: IV || E(data || 01..n || n), n minimal
 		_, plain, pad, rerr := ref.AESDecrypt(key[:], w)
@@ -308,7 +342,7 @@ func TestAES(t *testing.T) {
 		if !bytes.Equal(b.LayerPayload(), p) {
 			t.Fatalf("payload differs after round trip: % x vs % x", b.LayerPayload(), p)
 		}
-		w2 := ser(t, b, gopacket.Payload(append([]byte(nil), b.LayerPayload()...)))
+		w2 := serOnce(t, !usedBuffer, b, gopacket.Payload(append([]byte(nil), b.LayerPayload()...)))
 		_, plain2, pad2, rerr := ref.AESDecrypt(key[:], w2)
 		if rerr != nil || !bytes.Equal(plain2, p) || pad2 != pad || len(w2) != len(w) {
 			t.Fatalf("second serialisation decrypts differently: err %v, %d bytes pad %d", rerr, len(plain2), pad2)
